@@ -35,8 +35,6 @@ TRUSTED = [
 ]
 ASSUMPTIONS = [
     "vector lengths stay below 2^32 (ntt panics above; not executable) and usize arithmetic on lengths does not overflow",
-    "slow_square/square on an operand that STORES leading zeros panics on the pinned tree: that is a C17 finding; C07 "
-    "theorems about the two take normalised operands and C07 cases do not store zeros in their arguments",
     "schedule-independence of par_batch_multiply: partial - assumed from purity, validated by runs (DESIGN 1.5)",
 ]
 RULE = ("degree pairs on both sides of every dispatch threshold (degree sums 254..258 for multiply, squared lengths 61..67 for "
@@ -100,12 +98,13 @@ def cases(tier, rng):
         for a in ([], poly(rng, f, 0), [[1] + [0] * (W[f] - 1)], poly(rng, f, 1)):
             for op in ("square", "slowsq", "fastsq"):
                 add("degenerate-square", "%s %s %s" % (op, f, grp(a)))
-        # fast_square tolerates stored zeros (resize truncates them); slow_square/square with stored zeros is C17
+        # stored leading zeros (index panics of slow_square / square before the repair commit 0fd3b2b)
         for k in (1, 2, 17, 70):
-            add("degenerate-square", "fastsq %s %s" % (f, grp(poly(rng, f, 3), k)))
-            add("degenerate-square", "fastsq %s %s" % (f, grp(poly(rng, f, 40), k)))
-            add("degenerate-square", "fastsq %s %s" % (f, grp([], k)))
-            add("degenerate-square", "fastsq %s %s" % (f, grp(poly(rng, f, 0), k)))
+            for op in ("square", "slowsq", "fastsq"):
+                add("degenerate-square", "%s %s %s" % (op, f, grp(poly(rng, f, 3), k)))
+                add("degenerate-square", "%s %s %s" % (op, f, grp(poly(rng, f, 40), k)))
+                add("degenerate-square", "%s %s %s" % (op, f, grp([], k)))
+                add("degenerate-square", "%s %s %s" % (op, f, grp(poly(rng, f, 0), k)))
     # 4. batch products: sizes 0,1,2,3,7,8,9,64, mixed degrees, zero / one / stored-zero factors
     for f in ("b", "x"):
         for n in (0, 1, 2, 3, 7, 8, 9, 64):
